@@ -188,8 +188,7 @@ def _md(variant, n):
 def h_malformed(nr, nc, form, oid_v, sid_v):
     b = B()
     cells, D = sym_matrix(nr, nc, dense_only=flag('dense'))
-    if not any(c is not None for r in cells for c in r):
-        raise Abort()           # "input describing a non-empty table"
+    # "non-empty table" = a table with IDs on both axes (Table.is_empty looks at the IDs); an all-zero matrix counts
     data, kw = encode(form, D, nr, nc)
     omd_v = pick(MD_VARIANTS, 'obs-md')
     smd_v = pick(MD_VARIANTS, 'samp-md') if omd_v in ('none', 'ok') else 'none'
